@@ -24,7 +24,8 @@ def gen_job(rng, name, never_ok=True, p_forever=0.2, p_exc=0.3, durations=(0, 1,
     return dict(kind="job", name=name, d=None if never else rng.choice(durations), k=rng.choice([0, 0, 0, 1, 2, 3]),
                 exc=(not never) and rng.random() < p_exc, crit=rng.random() < 0.5, forever=forever,
                 ch=rng.choice([0, 0, 0, 2, 3]), sd=rng.choice([0, 0, 0, 1, 3]), h=0, coro=rng.random() < 0.3, req=[],
-                peek=rng.choice(["exit_jobs", "list", "dot", "debrief"]) if rng.random() < 0.06 else None)
+                peek=rng.choice(["exit_jobs", "list", "dot", "debrief"]) if rng.random() < 0.06 else None,
+                cls="print" if rng.random() < 0.1 else None)     # the library's PrintJob when the rest allows it
 
 
 def contains_never(node):
@@ -141,9 +142,11 @@ def flip_variants(sc, rng, max_subsets=6):
         for n, _ in walk(a["tree"]):
             if n["name"] in sub:
                 n["exc"] = False
+                n["cls"] = None         # the same job class in both runs (a PrintJob cannot raise)
         for n, _ in walk(b["tree"]):
             if n["name"] in sub:
                 n["exc"] = True
+                n["cls"] = None
         out.append((sub, a, b))
     return out
 
